@@ -185,4 +185,35 @@ PROPS = {
             "CapabilityContext::update_app (Arc<dyn SenderInner>) - only CommandContext::send_event is verified",
         ],
     },
+    "C06": {
+        "kani": [],
+        "verus": ["Q"],
+        "trusted_base": ["Verus 0.2026.09.13 + Z3 (unit Q: extracted Command::{run_task, run_until_settled, is_done, was_aborted} and Stream::poll_next)"],
+        "assumptions": [
+            "abort flags are read sequentially (c_aborted for the command, aborted_tasks for JoinHandle::abort); they are shared atomics: concurrent setting is not modelled (C08 not claimed)",
+            "polling a task's future is havoc restricted to appends; Task::is_aborted reads the task's own flag (assumed one-liner)",
+            "FIFO channel contracts, slab contracts as for C01/C13",
+        ],
+        "not_decided": [
+            "every injection point in every schedule (before first poll, while pending, between stream items, repeatedly, at every nesting level): the contracts are per call, for any state at entry",
+            "'resolving a request that belonged to cancelled work neither panics nor has any visible consequence': the resolve closures ignoring a closed channel (command/context.rs:59-62,86-91) are closures over futures-mpsc - unreachable (DESIGN 4.A)",
+            "'dropping the hosting future drops the nested command and all its tasks' (command/mod.rs:477-501): async blocks and drop glue",
+            "a request dropped unresolved: the eviction decision is proved as stated in run_task, that a dropped request makes the waker count fall is user/std behaviour (havoc)",
+        ],
+    },
+    "C07": {
+        "kani": [],
+        "verus": ["Q"],
+        "trusted_base": ["Verus 0.2026.09.13 + Z3 (unit Q: extracted Command::{run_task, run_until_settled, spawn_new_tasks, is_done} and Stream::poll_next)"],
+        "assumptions": [
+            "'something can still wake the task' is read as the code reads it: the task was woken during this poll, or a clone of THIS poll's waker survives; wakers handed out by earlier polls do not count. Whether that reading is exact for arbitrary futures (joins, selects, channels that keep old wakers) is a statement about all programs and is NOT decided",
+            "std Arc/Waker reference counting behaves as counting (assumed contracts of new_poll_waker/waker_of/drop_waker/poll_waker_refs in verus/Q/unit.rs)",
+            "polling a task's future is havoc; slab contracts",
+        ],
+        "not_decided": [
+            "exactness of the eviction heuristic over all futures (see assumptions)",
+            "'a request future whose channel closed stays pending without re-registering a waker' (command/context.rs:219-229: Fuse<StreamFuture<ShellStream>>, futures adapters)",
+            "'a command whose tasks wait only on shell requests reports done once all have been resolved or dropped': needs the future side of requests",
+        ],
+    },
 }
